@@ -139,6 +139,11 @@ def case(draw, mmax=8, allow_r=True, force_m=None):
             m = len(bh) + 1
     R = [draw(logu(0.3, 4.0)) for _ in range(m)]
     delta = [draw(logu(0.2, 3.0)) for _ in range(m)]
+    if force_m == 1 and R[0] > 1.2 and draw(st.integers(0, 2)) == 0:
+        # (supercritical only: with R < 1 and fast death 1 - p0 is of the order of exp(-A x0) and the survival term cancels)
+        # fast turnover relative to the depth of the tree: A <= lambda + mu + psi = delta (R + 1), so A x0 stays below
+        # 330 (beyond about 450 both classes return -inf on the pinned tree: exp(-A t) underflows) and reaches the hundreds
+        delta = [draw(fl(100.0, 330.0)) / ((R[0] + 1.0) * x0)]
     serial = max(t["tip_heights"]) > 0
     s = [draw(fl(0.05, 0.9)) for _ in range(m)] if serial else [draw(st.sampled_from([0.0, 0.0, 0.3])) for _ in range(m)]
     # the closed forms are singular at lambda = mu with psi = 0 (A = 0): stay away from the critical point
@@ -305,7 +310,12 @@ def constant_body(c):
     lam, mu, psi = epi(c["R"][0], c["delta"][0], c["s"][0])
     rho = c["rho"][0]
     ok_closed = not (rho == 0 and any(x == 0 for x in th) and False)
-    w = O.constant_rate_closed_form(th, [h[i] for i in range(n, 2 * n - 1)], lam, mu, psi, rho, x0, c["survival"])
+    try:
+        w = O.constant_rate_closed_form(th, [h[i] for i in range(n, 2 * n - 1)], lam, mu, psi, rho, x0, c["survival"])
+    except (ValueError, OverflowError):
+        res.labels = res.labels + ("closed_form_out_of_range",)
+        res.nontrivial = False
+        return res
     # the closed form treats tips at height 0 as rho-sampled when rho > 0, psi-sampled otherwise - same rule as the skyline
     if abs(v - w) > 1e-8 * max(1.0, abs(w)):
         return res.fail("mismatch", {"skyline_single_epoch": v, "closed_form": w})
